@@ -150,6 +150,9 @@ func (g *G) Program(ty m.Ty) *m.Node {
 		}
 		tree := g.Expr(ty, g.Depth)
 		if maxOperands(flattenModel(tree)) <= 127 && maxOperands(tree) <= 127 {
+			if rapid.IntRange(0, 4).Draw(g.t, "dup") == 0 {
+				g.duplicateOperands(tree)
+			}
 			return tree
 		}
 		if try >= 4 {
@@ -674,4 +677,67 @@ func applyWishes(u *Universe, wish map[string]bool) {
 			u.Vars[i].Val = m.V{X: w}
 		}
 	}
+}
+
+// duplicateOperands makes one operand of an and/or group a structural copy of another operand of
+// the same group - the group being the operator together with the same-kind and/or operators
+// directly below it (what ReduceNesting merges) - preferring operands that are calls. Identical
+// sub-expressions are what common-subexpression shortcuts key on; evaluated twice they must still
+// be evaluated twice.
+func (g *G) duplicateOperands(tree *m.Node) {
+	type slot struct {
+		parent *m.Node
+		idx    int
+	}
+	var groups [][]slot
+	var collect func(n *m.Node, and bool, into *[]slot)
+	collect = func(n *m.Node, and bool, into *[]slot) {
+		for i, k := range n.Kids {
+			if k.Kind == m.KOp && ((and && m.IsAnd(k.Name)) || (!and && m.IsOr(k.Name))) {
+				collect(k, and, into)
+			} else {
+				*into = append(*into, slot{n, i})
+			}
+		}
+	}
+	var parentOf = map[*m.Node]*m.Node{}
+	tree.Walk(func(x *m.Node) {
+		for _, k := range x.Kids {
+			parentOf[k] = x
+		}
+	})
+	tree.Walk(func(x *m.Node) {
+		if x.Kind != m.KOp || !(m.IsAnd(x.Name) || m.IsOr(x.Name)) {
+			return
+		}
+		and := m.IsAnd(x.Name)
+		if p := parentOf[x]; p != nil && p.Kind == m.KOp && ((and && m.IsAnd(p.Name)) || (!and && m.IsOr(p.Name))) {
+			return // part of its parent's group
+		}
+		var sl []slot
+		collect(x, and, &sl)
+		if len(sl) >= 2 {
+			groups = append(groups, sl)
+		}
+	})
+	if len(groups) == 0 {
+		return
+	}
+	grp := groups[rapid.IntRange(0, len(groups)-1).Draw(g.t, "dup_group")]
+	var calls []int
+	for i, s := range grp {
+		if !s.parent.Kids[s.idx].IsLeaf() {
+			calls = append(calls, i)
+		}
+	}
+	from := rapid.IntRange(0, len(grp)-1).Draw(g.t, "dup_from")
+	if len(calls) > 0 {
+		from = calls[rapid.IntRange(0, len(calls)-1).Draw(g.t, "dup_call")]
+	}
+	to := rapid.IntRange(0, len(grp)-2).Draw(g.t, "dup_to")
+	if to >= from {
+		to++
+	}
+	src := grp[from].parent.Kids[grp[from].idx]
+	grp[to].parent.Kids[grp[to].idx] = src.Clone()
 }
